@@ -13,7 +13,7 @@ res=""
 for c in $checks; do
   s=$(date +%s); out=$(./check $c --tier quick 2>&1); rc=$?; e=$(date +%s)
   if echo "$out" | grep -q "^VIOLATION property=$c"; then v=caught; elif [ $rc -eq 0 ]; then v=missed; else v="rc=$rc"; fi
-  sig=$(echo "$out" | grep -E "^  [a-zA-Z0-9:_+./-]+: " | head -1 | cut -c3-260 | sed 's/"/\\"/g')
+  sig=$(echo "$out" | grep -E "^  [a-zA-Z0-9:_+./@#()=,-]+: " | head -1 | cut -c3-260 | sed 's/"/\\"/g')
   echo "$id under $c: $v ($((e-s))s) $sig"
   res="$res{\"check\":\"$c\",\"tier\":\"quick\",\"verdict\":\"$v\",\"seconds\":$((e-s)),\"first_violation\":\"$sig\"},"
 done
